@@ -219,6 +219,26 @@ def check_history(ctx, h):
             if m.get_counts() != want:
                 out.append(("history:counts-after-read", "%s: reading statistics changed the counts" % desc))
                 break
+        else:
+            # the caller edits the LAST shot in place (same length): every statistic is the statistic of the shots the object holds
+            # now - the specification's state for the edited sequence
+            alt = h.get("alt")
+            if alt is not None and mode != "add_counts":
+                m.bitstrings[-1] = tuple(alt["stats"][-1])
+                desc = "one Measurements object after [%s, bitstrings[-1] = %s]" % (", ".join(hist), tuple(alt["stats"][-1]))
+                want = {"".join(map(str, e["t"])): e["n"] for e in alt["counts"]}
+                n = len(alt["stats"])
+                counts = m.get_counts()
+                means = [float(fr(x)) for x in alt["means"]]
+                corr = np.array([[float(fr(x)) for x in row] for row in alt["corr"]])
+                ev = m.get_expectation_values(op)
+                dist = {"".join(map(str, k_)): v for k_, v in m.get_distribution().distribution_dict.items()}
+                if counts != want:
+                    out.append(("history:edited:counts", "%s: counts %s, specification %s" % (desc, counts, want)))
+                elif set(dist) != set(want) or any(abs(dist[k_] - want[k_] / n) > 1e-12 for k_ in want):
+                    out.append(("history:edited:distribution", "%s: empirical distribution %s, counts/N %s" % (desc, dist, {k_: v / n for k_, v in want.items()})))
+                elif any(abs(complex(ev.values[i]) - means[i]) > 1e-12 for i in range(len(means))) or np.max(np.abs(np.asarray(ev.correlations[0]) - corr)) > 1e-12:
+                    out.append(("history:edited:expectation", "%s: expectation values %s / correlations %s, specification %s / %s" % (desc, list(ev.values), np.asarray(ev.correlations[0]).real.tolist(), means, corr.tolist())))
     return out
 
 
@@ -299,7 +319,9 @@ def run(ctx):
         if len(c["stats"]) >= 3:
             states = [index.get(json.dumps([c["stats"][:n], c["op"]], sort_keys=True)) for n in range(1, len(c["stats"]) + 1)]
             if all(x is not None for x in states) and len(set(map(tuple, c["stats"]))) < len(c["stats"]):   # some outcome repeats
-                hists.append({"k": "history", "op": c["op"], "states": states})
+                flipped = [1 - b for b in c["stats"][-1]]
+                alt = index.get(json.dumps([c["stats"][:-1] + [flipped], c["op"]], sort_keys=True))
+                hists.append({"k": "history", "op": c["op"], "states": states, "alt": alt})
     rng = random.Random(ctx.seed + 11)
     hists.sort(key=lambda h: json.dumps([h["op"], h["states"][-1]["stats"]], sort_keys=True))     # TLC's emission order varies
     if len(hists) > (1500 if quick else 15000):
